@@ -303,7 +303,11 @@ def main(tier):
                        'index conversion in HDF5File::appendTracks is checked with the HDF5 harness (C10/C17)', 'deterministic FP tracking models 1/2: containment only (the statement constrains kick/drift and the stochastic model)']
     chk.stubs = ['normal_distribution::operator() -> mean + sigma*xi', 'modff/floor exact with case split']
     chk.replayer = replayer(bld)
-    chk.add(run_jobs(jobs, budget=900 if tier == 'quick' else 3000))
+    # the loop of main moves the tracked particles through each map right after that map's step on the grid (step grammar over the explored traces: wm, rfm, drm, fpm each apply() then applyToAll(tracks)):
+    # a particle sees the same (possibly time-dependent) field the charge saw
+    import mainloop
+    jobs += mainloop.jobs_for('C15', tier)
+    _rs = run_jobs(jobs, budget=900 if tier == 'quick' else 3000); _rs.append(mainloop.loop_witness(_rs, 'C15')); chk.add(_rs)
     chk.finish()
 
 if __name__ == '__main__':
